@@ -21,7 +21,7 @@ from enum import Enum
 from inspect import signature, Signature
 from pathlib import Path
 from typing import (
-    TYPE_CHECKING, Any, Collection, Dict, Iterator, List, Mapping, Callable, 
+    TYPE_CHECKING, Any, Collection, Dict, Iterable, Iterator, List, Mapping, Callable, 
     Optional, Sequence, Set, Tuple, Type, TypeVar, Union, cast, overload
 )
 from urllib.parse import quote
@@ -271,8 +271,7 @@ class Documentable:
         # The registry keys of the whole subtree must follow, including the
         # older definitions superseded by duplicates (not in 'contents' anymore).
         subtree = self.system._subtree(self)
-        for o in subtree:
-            del self.system.allobjects[o.fullName()]
+        self.system._unregister(subtree)
         old_parent = self.parent
         assert isinstance(old_parent, CanContainImportsDocumentable)
         old_name = self.name
@@ -1393,14 +1392,28 @@ class System:
         All registered objects at or below C{o}, including the older definitions 
         superseded by duplicates, which are not in L{Documentable.contents} anymore.
         """
-        fullName = o.fullName()
-        prefix = fullName + '.'
-        return [ob for name, ob in self.allobjects.items() 
-                if name == fullName or name.startswith(prefix)]
+        prefix = o.fullName() + '.'
+        def below(ob: Documentable) -> bool:
+            # Another object might be registered under a name in our namespace 
+            # after a name clash (i.e. a class moved onto the name of its module).
+            parent = ob.parent
+            while parent is not None:
+                if parent is o:
+                    return True
+                parent = parent.parent
+            return False
+        return [o] + [ob for name, ob in self.allobjects.items() 
+                      if name.startswith(prefix) and below(ob)]
+
+    def _unregister(self, objects: Iterable[Documentable]) -> None:
+        """Remove the given objects from the registry, leaving alone the names taken over by other objects."""
+        for ob in objects:
+            fullName = ob.fullName()
+            if self.allobjects.get(fullName) is ob:
+                del self.allobjects[fullName]
 
     def _remove(self, o: Documentable) -> None:
-        for ob in self._subtree(o):
-            del self.allobjects[ob.fullName()]
+        self._unregister(self._subtree(o))
 
     def handleDuplicate(self, obj: Documentable) -> None:
         """
